@@ -207,6 +207,68 @@ pub fn run(check: &mut Check) {
             });
         }
     }
+    // constructed family: several packages/versions whose interfaces share their last path
+    // segment, all referenced from one consumer (alias allocation under competition)
+    let nm = check.tier.pick(600, 6_000);
+    check.prop(
+        "same-last-segment",
+        || (prop::collection::vec(0usize..6, 2..6), 0u8..3, any::<bool>(), 0usize..3),
+        nm,
+        |(order, world_kind, asyncv, seg), obs| {
+            let seg = ["types", "api", "my-iface"][*seg];
+            let sources = [
+                ("my:dep@0.1.0", format!("my:dep/{seg}@0.1.0")),
+                ("my:dep@0.2.0", format!("my:dep/{seg}@0.2.0")),
+                ("other:pkg", format!("other:pkg/{seg}")),
+                ("third:lib@1.0.0", format!("third:lib/{seg}@1.0.0")),
+                ("my:dep@0.3.0-rc.1", format!("my:dep/{seg}@0.3.0-rc.1")),
+                ("foo-ns:bar-baz", format!("foo-ns:bar-baz/{seg}")),
+            ];
+            let mut picked: Vec<usize> = vec![];
+            for o in order {
+                if !picked.contains(o) {
+                    picked.push(*o);
+                }
+            }
+            let mut wit = String::from("package foo:bar;\ninterface consumer {\n");
+            for (k, i) in picked.iter().enumerate() {
+                wit.push_str(&format!("  use {}.{{t{i} as u{k}}};\n", sources[*i].1));
+            }
+            let params: Vec<String> = picked.iter().enumerate().map(|(k, _)| format!("p{k}: u{k}")).collect();
+            wit.push_str(&format!("  f: func({});\n}}\n", params.join(", ")));
+            wit.push_str("world w {\n");
+            match world_kind {
+                0 => wit.push_str("  import consumer;\n"),
+                1 => wit.push_str("  export consumer;\n"),
+                _ => {
+                    for i in &picked {
+                        wit.push_str(&format!("  export {};\n", sources[*i].1));
+                    }
+                    wit.push_str("  export consumer;\n");
+                }
+            }
+            wit.push_str("}\n");
+            for i in &picked {
+                wit.push_str(&format!("package {} {{\n  interface {seg} {{ record t{i} {{ a: u32, b: string }} g{i}: func(x: t{i}) -> t{i}; }}\n}}\n", sources[*i].0));
+            }
+            let (resolve, world) = match backends::resolve_input(&backends::Input::Text(&wit), None) {
+                Ok(x) => x,
+                Err(e) => vcommon::harness_error(format!("constructed world rejected: {e:#}\n{wit}")),
+            };
+            let vars = backends::variants("moonbit");
+            let (variant, args) = vars[*asyncv as usize % vars.len()].clone();
+            let files = match backends::generate("moonbit", &args, &resolve, world, None) {
+                GenOutcome::Files(f) => f,
+                _ => return Ok(()),
+            };
+            let r = check_files(&files, &resolve, world, &format!("variant {variant}\nWIT:\n{wit}"), obs);
+            if picked.len() >= 3 {
+                obs.nontrivial_by(&(&wit, variant));
+                obs.sample = Some(serde_json::json!({"wit": wit, "variant": variant}));
+            }
+            r
+        },
+    );
     let n = check.tier.pick(6_000, 150_000);
     check.prop("worlds", || (tape_strategy(900), Just(0u8), any::<u8>()).prop_map(|(tape, backend, variant)| WorldCase { tape, backend, variant }), n, prop);
 }
